@@ -18,13 +18,24 @@ alpha = [chr(92), chr(96), chr(34), chr(39), chr(10), "a", ")", ";", "#", "("]
 n = 0; bad = []; disagree = []
 for pre, post in (("", " +"), ("1[", "|2]+")):
     ref = {dc: transpile_det(pre + chr(96) + "QZQ" + chr(96) + post, dc) for dc in (True, False)}
-    for L in range(0, 5):
+    for L in range(0, 6):
         for t in itertools.product(alpha, repeat=L):
             body = "".join(t)
-            if chr(96) in body.replace(chr(92) + chr(96), ""):
-                continue  # an unescaped back-quote ends the literal: the rest is program text, not payload
-            if len(body) - len(body.rstrip(chr(92))) & 1:
-                continue  # a trailing lone backslash escapes the closing back-quote
+            if L == 5 and (body[0] != chr(92) or pre):
+                continue  # length 5: only bodies that start with an escape, in the first context
+            i = 0; valid = True
+            while i < len(body):
+                if body[i] == chr(92):
+                    if i + 1 >= len(body):
+                        valid = False  # a trailing lone backslash escapes the closing back-quote
+                    i += 2
+                elif body[i] == chr(96):
+                    valid = False  # an unescaped back-quote ends the literal: the rest is program text, not payload
+                    break
+                else:
+                    i += 1
+            if not valid:
+                continue
             for dc in (False, True):
                 n += 1
                 try:
@@ -32,8 +43,8 @@ for pre, post in (("", " +"), ("1[", "|2]+")):
                 except Exception:
                     continue
                 try:
-                    same = ast_shape(out) == ast_shape(ref[dc])
-                except (SyntaxError, ValueError):
+                    same = ast_shape(out) == ast_shape(ref[dc]) and tok_shape(out) == tok_shape(ref[dc])
+                except Exception:
                     continue
                 lex = match_segments(out, ref[dc].split("QZQ"), "strbody")
                 if not same:
@@ -52,7 +63,7 @@ print(json.dumps({"n": n, "bad": bad[:5], "nbad": len(bad), "disagree": disagree
         pre, body, post, dc = out["bad"][0]
         replay = ("import sys, warnings; warnings.filterwarnings('ignore'); sys.path[:0]=[%r,%r]\nfrom hlib.c18lib import *\n"
                   "out = transpile_det(%r + chr(96) + %r + chr(96) + %r, %r)\nref = transpile_det(%r + chr(96) + 'QZQ' + chr(96) + %r, %r)\nprint(out)\n"
-                  "sys.exit(0 if ast_shape(out) == ast_shape(ref) else 1)\n" % (REPO, VERIF, pre, body, post, dc, pre, post, dc))
+                  "sys.exit(0 if ast_shape(out) == ast_shape(ref) and tok_shape(out) == tok_shape(ref) else 1)\n" % (REPO, VERIF, pre, body, post, dc, pre, post, dc))
         res["violations"] = [("C18 corpus: string body %r changes the shape of the generated code (%d such bodies)" % (body, out["nbad"]), replay)]
     return res
 
